@@ -7,7 +7,7 @@
    eq/neq/ge/le is used as a 0/1 number (they are NumPy booleans: `+` saturates, `-` and unary minus raise TypeError), and
    min/max (Python builtins) raise ValueError on array operands — see C17_eval_denotes_documented_refuted,
    C17_indicator_sum_saturates, C17_indicator_difference_crashes, C17_minmax_array_refuted. *)
-From Coq Require Import ZArith Bool List String Reals Lra.
+From Coq Require Import ZArith Bool List String Reals Lra Lia.
 From VF Require Import Num NumR GenOpTable Core ShuntingYard Grammar ShuntingYardProofs Formula FormulaSpec FormulaProofs.
 Import ListNotations.
 Local Open Scope string_scope.
@@ -185,13 +185,13 @@ Qed.
 
 (* a typed, defined formula with logical, relational, arithmetic parts, min/max and a power *)
 Example C17_eval_denotes_inhabited : forall x y : R, 0 < x ->
-  let t := FElem2 "or" (FElem2 "ge" (FElem2 "max" (FVar "x") (FVar "y")) (FElem0 "pi"))
+  let t := FElem2 "or" (FElem2 "ge" (FElem2 "max" (FVar "x") (FConst 2)) (FElem0 "pi"))
                        (FElem1 "!" (FElem2 "-" (FElem2 "^" (FVar "x") (FVar "y")) (FElem1 "sqrt" (FElem1 "abs" (FVar "y"))))) in
   typeof true t = Some TyB /\ defined [("x", x); ("y", y)] t /\ arrays_ok ["y"] t.
 Proof.
   intros x y Hx t. split; [reflexivity|]. split.
   - cbn. repeat split; try discriminate. intros _. exact Hx.
-  - cbn. repeat split; discriminate.
+  - cbn. repeat split; try discriminate; intros _; reflexivity.
 Qed.
 
 (* ill-formed inputs of each class are covered by the rejection theorem *)
